@@ -190,6 +190,8 @@ def codec_monitor(codec, case, outs, ctx):
 
 def post_fn(op, out):
     k = op.split()[0]
+    if k == "sizes":
+        return out
     if k in ("build", "send"):
         return out
     if k == "dump":
@@ -251,9 +253,9 @@ def run(ctx):
             return
     # ---- packing
     m = ctx.scale(40, 700)
-    pcases = []
+    pcases = [connlib.sizes_case()]
     for i in range(m):
-        mtu = rng.choice([1500, 1500, 512, 576, 1097, 1098, 1280])
+        mtu = rng.choice([1500, 1500, 512, 576, 1097, 1098, 1280, 1090, 1093, 1095, 1096])
         kind = i % 4
         if kind == 0:      # hundreds of tiny messages in one tick over a perfect link
             pcases.append(connlib.gen_two_party(real, rng, "b%d" % i, mtu=mtu, steps=3, loss=0, dup=0, delay=0, replay=0,
